@@ -264,8 +264,9 @@ type h3eSpec struct {
 	respDeclCL   bool
 	respTrDecl   [][2]string
 	respTrUndecl [][2]string
-	gzip         bool
-	fakeCL       int // 204-less: a 304 response declaring the Content-Length of the representation, without content
+	gzip         bool   // the handler answers with Content-Encoding: gzip (pre-compressed representation)
+	respGz       []byte // the compressed bytes it writes
+	fakeCL       int    // 204-less: a 304 response declaring the Content-Length of the representation, without content
 }
 
 func h3eShort(hs [][2]string) string {
@@ -379,6 +380,13 @@ func h3eGenSpec(r *u.Rng, id int, thorough bool) *h3eSpec {
 		}
 		s.reqHdr = append(s.reqHdr, [2]string{nm, v})
 	}
+	// fields that switch the transport's automatic "accept-encoding: gzip" off
+	if r.Chance(1, 6) {
+		s.reqHdr = append(s.reqHdr, [2]string{"Range", "bytes=0-"})
+	}
+	if r.Chance(1, 6) {
+		s.reqHdr = append(s.reqHdr, [2]string{"Accept-Encoding", []string{"identity", "gzip", "br, gzip;q=0.5"}[r.Intn(3)]})
+	}
 	if s.method != "GET" && s.method != "HEAD" && s.method != "OPTIONS" && s.method != "DELETE" || r.Chance(1, 6) {
 		s.reqBody = h3eBody(r, thorough)
 	}
@@ -415,7 +423,13 @@ func h3eGenSpec(r *u.Rng, id int, thorough bool) *h3eSpec {
 		s.respBody = h3eBody(r, thorough)
 		s.respChunks = h3eChunks(r, len(s.respBody))
 		s.respDeclCL = r.Chance(1, 3)
-		s.gzip = s.method != "HEAD" && len(s.respBody) > 0 && r.Chance(1, 6)
+		s.gzip = len(s.respBody) > 0 && (r.Chance(1, 6) || s.method == "HEAD" && r.Bool())
+		if s.gzip {
+			s.regz()
+			if s.method == "HEAD" || r.Bool() {
+				s.respDeclCL = true
+			}
+		}
 		if r.Chance(1, 3) {
 			for k := r.Range(1, 2); k > 0; k-- {
 				s.respTrDecl = append(s.respTrDecl, [2]string{[]string{"X-T1", "X-T2"}[r.Intn(2)], h3eValue(r)})
@@ -426,6 +440,18 @@ func h3eGenSpec(r *u.Rng, id int, thorough bool) *h3eSpec {
 		}
 	}
 	return s
+}
+
+// regz (re)computes the compressed representation after the body was set or cut.
+func (s *h3eSpec) regz() {
+	if !s.gzip {
+		return
+	}
+	var zb bytes.Buffer
+	zw := gzip.NewWriter(&zb)
+	zw.Write(s.respBody)
+	zw.Close()
+	s.respGz = zb.Bytes()
 }
 
 func h3eGroup(hs [][2]string) map[string][]string {
@@ -537,11 +563,7 @@ func (wd *h3eWorld) handler(w http.ResponseWriter, r *http.Request) {
 	body := s.respBody
 	chunks := append([]int{}, s.respChunks...)
 	if s.gzip {
-		var zb bytes.Buffer
-		zw := gzip.NewWriter(&zb)
-		zw.Write(body)
-		zw.Close()
-		body = zb.Bytes()
+		body = s.respGz
 		chunks = []int{len(body)/2 + 1, len(body)}
 		w.Header().Set("Content-Encoding", "gzip")
 	}
@@ -591,7 +613,13 @@ func (wd *h3eWorld) exchange(tr *http3.Transport, base string, s *h3eSpec, lossy
 }
 
 func (wd *h3eWorld) exchangeTagged(tr *http3.Transport, base string, s *h3eSpec, env string) {
-	tag := fmt.Sprintf("%s %s", env, s)
+	tag := fmt.Sprintf("%s disableCompression=%v %s", env, tr.DisableCompression, s)
+	appSet := h3eGroup(s.reqHdr)
+	_, appAE := appSet["Accept-Encoding"]
+	_, appRange := appSet["Range"]
+	// RequestStream.sendRequestHeader's documented rule for transparent compression
+	autoGzip := !tr.DisableCompression && s.method != "HEAD" && !appAE && !appRange
+	transparent := autoGzip && s.gzip // the client decodes the gzip response and rewrites its header
 	url := fmt.Sprintf("%s/e/%d", base, s.id)
 	if s.query != "" {
 		url += "?" + s.query
@@ -669,9 +697,17 @@ func (wd *h3eWorld) exchangeTagged(tr *http3.Transport, base string, s *h3eSpec,
 				bad = append(bad, fmt.Sprintf("header %s: handler saw %q, client sent %q", k, seen.hdr[k], v))
 			}
 		}
+		// the documented automatic fields: accept-encoding: gzip (compression enabled, not HEAD, the
+		// application set neither Accept-Encoding nor Range), a default User-Agent, Content-Length, Trailer
+		if autoGzip {
+			want["Accept-Encoding"] = []string{"gzip"}
+			if fmt.Sprint(seen.hdr["Accept-Encoding"]) != "[gzip]" {
+				bad = append(bad, fmt.Sprintf("automatic accept-encoding: handler saw %q", seen.hdr["Accept-Encoding"]))
+			}
+		}
 		for k, v := range seen.hdr {
-			if _, ok := want[k]; !ok && k != "Accept-Encoding" && k != "User-Agent" && k != "Content-Length" && k != "Trailer" {
-				bad = append(bad, fmt.Sprintf("handler saw a header that was not sent: %s=%q", k, v))
+			if _, ok := want[k]; !ok && k != "User-Agent" && k != "Content-Length" && k != "Trailer" {
+				bad = append(bad, fmt.Sprintf("handler saw a header the client application did not set: %s=%q", k, v))
 			}
 		}
 		if seen.bodyErr != nil || !bytes.Equal(seen.body, s.reqBody) {
@@ -701,6 +737,13 @@ func (wd *h3eWorld) exchangeTagged(tr *http3.Transport, base string, s *h3eSpec,
 		bad = append(bad, fmt.Sprintf("status %d", res.StatusCode))
 	}
 	want := h3eGroup(s.respHdr)
+	written := s.respBody // the bytes the handler writes
+	if s.gzip {
+		written = s.respGz
+		if !transparent {
+			want["Content-Encoding"] = []string{"gzip"}
+		}
+	}
 	for k, v := range want {
 		if fmt.Sprint(res.Header[k]) != fmt.Sprint(v) {
 			bad = append(bad, fmt.Sprintf("header %s: client saw %q, handler wrote %q", k, res.Header[k], v))
@@ -711,18 +754,36 @@ func (wd *h3eWorld) exchangeTagged(tr *http3.Transport, base string, s *h3eSpec,
 			bad = append(bad, fmt.Sprintf("client saw a header the handler did not write: %s=%q", k, v))
 		}
 	}
-	wantBody := s.respBody
+	wantBody := written
+	if transparent {
+		wantBody = s.respBody
+	}
 	if s.method == "HEAD" {
 		wantBody = nil
 	}
 	if rerr != nil || !bytes.Equal(rb, wantBody) {
-		bad = append(bad, fmt.Sprintf("body: client read %s err=%v, handler wrote %s", h3eSum(rb), rerr, h3eSum(wantBody)))
+		bad = append(bad, fmt.Sprintf("body: client read %s err=%v, want %s (handler wrote %s, transparent gzip=%v)", h3eSum(rb), rerr, h3eSum(wantBody), h3eSum(written), transparent))
 	}
-	if s.gzip && (!res.Uncompressed || res.Header.Get("Content-Encoding") != "") {
-		bad = append(bad, "gzip response not transparently decoded")
+	if res.Uncompressed != transparent {
+		bad = append(bad, fmt.Sprintf("Uncompressed=%v although transparent gzip decoding applies=%v (method %s, handler Content-Encoding gzip=%v)", res.Uncompressed, transparent, s.method, s.gzip))
 	}
-	if s.respDeclCL && !s.gzip && s.method != "HEAD" && res.ContentLength != int64(len(s.respBody)) {
-		bad = append(bad, fmt.Sprintf("ContentLength %d, declared %d", res.ContentLength, len(s.respBody)))
+	// Content-Length: as declared by the handler, except under the documented transparent-gzip rewriting
+	declared := -1
+	if s.respDeclCL {
+		declared = len(written)
+	}
+	if s.fakeCL > 0 {
+		declared = s.fakeCL
+	}
+	switch {
+	case transparent:
+		if res.ContentLength != -1 || res.Header.Get("Content-Length") != "" {
+			bad = append(bad, fmt.Sprintf("transparently decoded gzip response still carries a length: ContentLength=%d header %q", res.ContentLength, res.Header["Content-Length"]))
+		}
+	case declared >= 0:
+		if res.ContentLength != int64(declared) || res.Header.Get("Content-Length") != strconv.Itoa(declared) {
+			bad = append(bad, fmt.Sprintf("Content-Length: client saw ContentLength=%d header %q, handler declared %d", res.ContentLength, res.Header["Content-Length"], declared))
+		}
 	}
 	if s.method != "HEAD" {
 		wt := h3eGroup(append(append([][2]string{}, s.respTrDecl...), s.respTrUndecl...))
@@ -1385,7 +1446,10 @@ func h3eChild(w *bufio.Writer, seed uint64, n int) {
 			relay = h3eNewRelay(udp.LocalAddr().(*net.UDPAddr), r.Fork(), r.Range(5, 30))
 			base = fmt.Sprintf("https://localhost:%d", relay.front.LocalAddr().(*net.UDPAddr).Port)
 		}
-		tr := &http3.Transport{TLSClientConfig: ctls.Clone(), QUICConfig: &quic.Config{EnableDatagrams: true}, Logger: nil}
+		tr := &http3.Transport{TLSClientConfig: ctls.Clone(), QUICConfig: &quic.Config{EnableDatagrams: true}, Logger: nil, DisableCompression: r.Chance(1, 4)}
+		if tr.DisableCompression {
+			dist["disable-compression"]++
+		}
 		for rounds := r.Range(1, 3); rounds > 0 && nEx > 0; rounds-- {
 			conc := min(r.Range(1, 8), nEx)
 			var batch []*h3eSpec
@@ -1395,6 +1459,7 @@ func h3eChild(w *bufio.Writer, seed uint64, n int) {
 				if lossy && len(s.reqBody)+len(s.respBody) > 100000 { // keep the lossy share cheap
 					s.reqBody, s.respBody = s.reqBody[:min(len(s.reqBody), 30000)], s.respBody[:min(len(s.respBody), 30000)]
 					s.reqChunks, s.respChunks = h3eChunks(r, len(s.reqBody)), h3eChunks(r, len(s.respBody))
+					s.regz()
 				}
 				wd.mu.Lock()
 				wd.specs[id] = s
@@ -1413,6 +1478,9 @@ func h3eChild(w *bufio.Writer, seed uint64, n int) {
 				}
 				if s.gzip {
 					dist["gzip"]++
+					if s.method == "HEAD" {
+						dist["gzip-HEAD"]++
+					}
 				}
 			}
 			dist[fmt.Sprintf("concurrency-%d", conc)]++
